@@ -15,6 +15,7 @@ import (
 
 // script functions that apply one operation to their parameter
 const funcsSrc = "fset = func(p, i, x) { p[i] = x }\n" +
+	"fsetv = func(i, x, p...) { p[i] = x }\n" +
 	"fapp = func(p, x) { p += x }\n" +
 	"fdel = func(p, k) { delete(p, k) }\n" +
 	"id = func(x) { return x }\n" +
@@ -262,6 +263,14 @@ func render(m *mirror, st *Step) rendered {
 				return bad("invalid_step")
 			}
 			r.src = "fset(" + t.src + ", " + s + ", " + st.V.src() + ")"
+		case "setv":
+			// the slice is spread into the variadic parameter of a script function: `f(i, x, s...)` hands over
+			// the slice itself, a store through the parameter is a store into the caller's slice
+			s, ok := keyOrIdx()
+			if !ok || st.V == nil || t.kind != "us" {
+				return bad("invalid_step")
+			}
+			r.src = "fsetv(" + s + ", " + st.V.src() + ", " + t.src + "...)"
 		case "app":
 			if st.R != nil {
 				if *st.R < 0 || *st.R >= len(m.vars) || isStructKind(m.kinds[*st.R]) {
